@@ -328,7 +328,13 @@ func (s *socket) MaybeUpgrade(transport transports.Transport) {
 		verifhook.Point("socket.MaybeUpgrade.enter", s, transport)
 	}
 
-	s.upgrading.Store(true)
+	// claim the upgrade in one step: two candidates may both have passed the server's
+	// "already upgrading?" test
+	if s.upgraded.Load() || !s.upgrading.CompareAndSwap(false, true) {
+		socket_log.Debug("transport has already been upgraded or is trying to upgrade")
+		transport.Close()
+		return
+	}
 
 	var check, cleanup func()
 	var onPacket, onError, onTransportClose, onClose events.Listener
